@@ -461,6 +461,7 @@ type TxParams struct {
 	Fee     sdk.Coins
 	Gas     uint64
 	Granter sdk.AccAddress
+	TimeoutHeight uint64
 	// SignOver: if non-nil the signatures are made over these messages instead of Msgs (tampering relay:
 	// signatures collected for one message list, transaction rebuilt with another).
 	SignOver []sdk.Msg
@@ -483,6 +484,9 @@ func (e *Env) BuildTx(p TxParams) (bt *BuiltTx, err error) {
 		b.SetFeeAmount(p.Fee)
 		if len(p.Granter) > 0 {
 			b.SetFeeGranter(p.Granter)
+		}
+		if p.TimeoutHeight > 0 {
+			b.SetTimeoutHeight(p.TimeoutHeight)
 		}
 		return b, nil
 	}
